@@ -410,6 +410,8 @@ func c03() int {
 	rep.Assume = []string{"reference semantics of DESIGN.md Appendix A for oracle (f) and for the stated/available amount of (b),(d)"}
 	// the amount as a client states it, through the v1 / v2 routers and bulk (apivars.go)
 	apiCases, apiAccepted, apiRefused := apiAmounts(rep)
+	// every text of a family gets its own program through one compilation cache (c08.go)
+	cov["cache_key_family"] = c08KeyFamily(rep)
 	cov["api_amount_cases"], cov["api_amount_accepted"], cov["api_amount_refused"] = apiCases, apiAccepted, apiRefused
 	return rep.Finish(cov)
 }
